@@ -91,6 +91,10 @@ Section CheckMsp.
 
   Definition check_msp (l : list (dna * list (N * N * dna))) : bool :=
     (1 <=? k) && match all_obs l with Some obs => functional obs | None => false end.
+  (* the piece half alone (exact substrings, true flanking extensions, tiling with k-1 overlap), linear in the read
+     length: used for reads of tens of thousands of bases, where the quadratic purity test is too slow *)
+  Definition check_tiling (l : list (dna * list (N * N * dna))) : bool :=
+    (1 <=? k) && match all_obs l with Some _ => true | None => false end.
 End CheckMsp.
 
 (* ---- C07 for simple_scan, whose intervals carry (bucket, start, len) but no minimizer position: an interval is accepted
